@@ -570,14 +570,15 @@ func C13() int {
 	rep.Rule = fmt.Sprintf("breadth-first search to depth %d over the tenant model with operations ingest(org∈{0,1}, index∈{a, ab, a-b}), add/remove alias (x, and ab which is also an index name), "+
 		"delete(org, index | a*), rotate; every distinct canonical state (sorted model + layout flag) is reached on the real code by replaying its shortest path in a fresh name space, "+
 		"then 12 index expressions (a, ab, a-b, a*, *, x, \"a,ab\", zz, \"ab,x\", and the wildcards *a, *b, a*b that do not end in *) × both organisations × {*, stats count} are evaluated: no event of the other organisation, "+
-		"nothing outside the named indexes, everything inside them. non-trivial = expression with a non-empty expected result while both orgs (or ≥2 indexes of the org) hold data", depth)
+		"nothing outside the named indexes, everything inside them. non-trivial = expression with a non-empty expected result while both orgs (or ≥2 indexes of the org) hold data. Colliding names: organisations 1 and 11 × indexes Pa and Pa1 (name and id glued without a separator coincide), every order of the first ingest into the four pairs, two rounds, with and without rotation; each organisation's searches over each index, the wildcard and * return exactly its own events", depth)
 	rep.Assume = []string{"multi-tenancy is driven through the public seam: GetIdsConditionHook → [0,1] and the org id argument of the processing functions",
 		"whether a wildcard also expands alias names, and which reading wins when an alias shares its name with an index, is left open (lower/upper bound)"}
 	paths := c13States(depth)
 	rep.Bounds["depth"] = depth
 	rep.Bounds["model_states"] = len(paths)
+	budget := kernel.NewBudget(map[string]time.Duration{"quick": 170 * time.Second, "thorough": 40 * time.Minute}[rep.Tier])
 	d := &Driver[c13Job]{Rep: rep, Pool: c13Pool(),
-		Budget: kernel.NewBudget(map[string]time.Duration{"quick": 170 * time.Second, "thorough": 40 * time.Minute}[rep.Tier]),
+		Budget: budget,
 		Enumerate: func(emit func(c13Job)) {
 			for _, p := range paths {
 				emit(c13Job{Path: p})
@@ -588,10 +589,20 @@ func C13() int {
 		Nontrivial: func(j *c13Job) bool { return false },
 	}
 	d.Drive()
+	c13Collide(rep, budget)
 	return rep.Finish()
 }
 
 func init() {
 	Registry["C13"] = C13
-	Replayers["C13"] = MakeReplayer[c13Job]("C13", "model_checking", c13Pool, c13Run)
+	Replayers["C13"] = func(doc json.RawMessage) int {
+		var probe struct {
+			Order []int `json:"order"`
+		}
+		_ = json.Unmarshal(doc, &probe)
+		if len(probe.Order) > 0 {
+			return MakeReplayer[c13xJob]("C13", "model_checking", c13xPool, c13xRun)(doc)
+		}
+		return MakeReplayer[c13Job]("C13", "model_checking", c13Pool, c13Run)(doc)
+	}
 }
